@@ -42,7 +42,8 @@ def servers():
                       hostkeys={'rsa-sha2-512': peers.rsa_blob(4096), 'ssh-rsa': peers.rsa_blob(4096), 'ssh-ed25519': peers.ed25519_blob()})
     S['gex1024'] = mk(b'SSH-2.0-Generic_1.0', ['curve25519-sha256', 'diffie-hellman-group-exchange-sha256', 'diffie-hellman-group-exchange-sha1'],
                       ['aes128-ctr'], gex={'style': 'roundup', 'moduli': [1024]})
-    S['gex4096'] = mk(b'SSH-2.0-Generic_1.0', ['curve25519-sha256', 'diffie-hellman-group-exchange-sha256', 'diffie-hellman-group-exchange-sha1'],
+    # (an OpenSSH banner: only recognised software gets recommendations, and the one for group exchange is what the ossh2048 target suppresses)
+    S['gex4096'] = mk(b'SSH-2.0-OpenSSH_8.0', ['curve25519-sha256', 'diffie-hellman-group-exchange-sha256', 'diffie-hellman-group-exchange-sha1'],
                       ['aes128-ctr'], gex={'style': 'roundup', 'moduli': [4096]})
     S['ossh2048'] = mk(b'SSH-2.0-OpenSSH_8.0', ['curve25519-sha256', 'diffie-hellman-group-exchange-sha256'], ['aes128-ctr'],
                        gex={'style': 'openssh', 'moduli': [2048]})
